@@ -308,6 +308,12 @@ func (e *bigEnv) bytesOf(v ssa.Value, at ssa.Instruction) *X {
 		if v := filledWith(x); v != nil {
 			return Op("call:bytes.Repeat", Op("lit", e.plain(v, at)), e.plainIdx(x.Len, at))
 		}
+		if k, isK := constInt(x.Len); isK && k == 0 {
+			return Op("concat") // make([]byte, 0, cap): the empty string, to be appended to
+		}
+		if lay := e.layoutOf(x, at); lay != nil {
+			return lay
+		}
 		return Op("make", e.plainIdx(x.Len, at))
 	case *ssa.Phi:
 		// a join whose incoming values are canonically equal is that value
@@ -545,7 +551,12 @@ func stripCopies(x *X) *X {
 			}
 		case lo != "_" && hi != "_":
 			want = []string{"sub(" + hi + "," + lo + ")"}
-			// constant folding for the common hex case is left to the caller's expected strings
+			var k1, k2 uint64
+			if _, err := fmt.Sscanf(lo, "0x%x", &k1); err == nil && !strings.ContainsAny(lo, "(),") {
+				if _, err := fmt.Sscanf(hi, "0x%x", &k2); err == nil && !strings.ContainsAny(hi, "(),") && k2 >= k1 {
+					want = append(want, fmt.Sprintf("0x%x", k2-k1))
+				}
+			}
 		}
 		for _, w := range want {
 			if n == w {
